@@ -31,8 +31,8 @@ CLAIMED = {
    text="Shows there is no channel through which an earlier call can influence a later one or a later call alter an earlier result: nothing survives in pooled objects or globals, the cache is transparent and immutable, zero-copy strings never share memory that is written afterwards, inputs and rule maps are never written. User-supplied functions are outside.",
    ref="DESIGN.md §4 C12"),
  "C14": dict(
-   technique="writer/reader constant-table agreement, linear-inequality normalisation of the message guard, delimiter-order dependency rule, fast-path dominance (static analysis)",
-   text="Necessary conditions of the round trip: builder and parser agree on '=' and '|', joiner and splitter default agree, the message guard is exactly 'at least one byte follows the bar' in both branches, the two delimiter positions are related, the fast path is guarded by 'no quote'. ",
+   technique="segmented-string abstract evaluation of the parser over an exhaustive family of text skeletons (complete input/output table), path enumeration of the splitter's transition table over byte classes, writer/reader constant-table agreement, fast-path dominance (static analysis)",
+   text="The parser's complete table: for every rule-text skeleton (plain, bar, eq, eq+bar; message present or not; later '=' and '|') ParseValidNameKV returns exactly the specified key, value and labelled message and cannot index out of range (C14-PARSE); builder and parser agree on '=' and '|', joiner and splitter default agree, the fast path is guarded by 'no quote'. ",
    ref="DESIGN.md §4 C14"),
  "C19": dict(
    technique="dominance/ordering rules on the handler's CFG, file-mutation call inventory over the call graph, loop-exit discipline, optional-pointer nil-guard rule, bounds prover with regex-inclusion fact (static analysis)",
@@ -104,7 +104,7 @@ ADDED = {
  "C11": "Also: entries of the type cache are complete when published and never written (C11-CACHE); objects reached from a global and mutated through their methods count as shared state; an object handed to a pool's releaser by a non-deferred call is not used afterwards.",
  "C12": "Also: C12-MEMO (package-level concurrent maps written on a validation path store f(key) under key), C12-PARAMWRITE (no store into slice parameters); zero-copy strings are only made from bytes freshly allocated by the same call (never a pooled/shared buffer); the library never writes a caller's rule map, setup paths included (RM.Set / map updates on caller-provided RMs); cache entries complete when published.",
  "C13": "Also: no == between interface values of arbitrary dynamic type (C13-IFACECMP); export predicate exact (C13-EXPORT: reflect refuses Interface() on unexported fields), ToStr never calls String() itself (nil receivers), pointer stripping returns a non-pointer (C13-STRIP)." + BASE % "C13" + "STATE, ALIAS.",
- "C14": "Since DESIGN.md §10 the splitter's quote-aware slow path IS decided: its complete transition table over (inside-quotes, byte class) is extracted from the code and compared with the specification (C14-SPLIT), with the stack's contract (C14-STACK); RM.Set accumulates per field only (C14-SET); delimiters by first occurrence (C14-FIRST); key and value returned as untouched substrings (C14-VERBATIM); every rule list goes through ValidNamesSplit (C14-USE)." + BASE % "C14" + "STATE, ALIAS, LABEL.",
+ "C14": "Since DESIGN.md §10 the splitter's quote-aware slow path IS decided: its complete transition table over (inside-quotes, byte class) is extracted from the code and compared with the specification (C14-SPLIT), with the stack's contract (C14-STACK); RM.Set accumulates per field only (C14-SET); the parser's shape rules (GUARD, ORDER, FIRST, VERBATIM) are applied only when the table is undecided or mismatched; every rule list goes through ValidNamesSplit (C14-USE)." + BASE % "C14" + "STATE, ALIAS, LABEL.",
  "C15": "Also: the message of a quoted-argument rule (re) is parsed from the rule text with the quoted span removed (C15-QUOTED); the extractor writes the separator iff output is non-empty and cuts right after the label found (C15-JOIN)." + BASE % "C15" + "DECLARED, STATE, ALIAS, TEXT, MAT.",
  "C16": "Also: walker getValidFn wrappers only delegate (C16-DELEGATE); the rule name is looked up before any emptiness test of the value (C16-UNKNOWN), exported wrappers pass an unscoped rule set without an object (C16-API), cached rule info is never written (C16-DECLARED)." + BASE % "C16" + "STATE (per-call function tables do not survive in pooled validators), LOOP, TEXT.",
  "C17": "Also: the clause of a violated group names every member; the type name is accepted as object path only on the outermost-object edge; members keep their own value until evaluation (C17-OWNVALUE); map keys rendered by ToStr's fmt default (C17-PATHKEY)." + BASE % "C17" + "DECLARED, STATE, ALIAS, LOOP, TEXT, MAT.",
